@@ -2,6 +2,7 @@ import Driver.Cb
 import Driver.Map
 import Driver.Read
 import Driver.Cache
+import Driver.Walk
 
 def main (args : List String) : IO UInt32 := do
   let stdin ← IO.getStdin
@@ -10,4 +11,5 @@ def main (args : List String) : IO UInt32 := do
   | ["map"] => Driver.Map.run stdin; return 0
   | ["read"] => Driver.Read.run stdin; return 0
   | ["cache"] => Driver.Cache.run stdin; return 0
+  | ["walk"] => Driver.Walk.run stdin; return 0
   | _ => IO.eprintln "usage: kdfdrv <stream>"; return 2
